@@ -91,6 +91,12 @@ func (runInfo *runInfoStruct) funcExpr() {
 		inTypes[len(inTypes)-1] = interfaceSliceType
 	}
 	// create funcType, output is always slice of reflect.Type with two values
+	// reflect.FuncOf panics when the signature has more than 128 words
+	if len(inTypes)+2 > 128 {
+		runInfo.err = newStringError(funcExpr, "function has too many parameters")
+		runInfo.rv = nilValue
+		return
+	}
 	funcType := reflect.FuncOf(inTypes, []reflect.Type{reflectValueType, reflectValueType}, funcExpr.VarArg)
 
 	// create a function that can be used by reflect.MakeFunc
